@@ -21,12 +21,26 @@ def cps_be(s: str) -> bytes:
     return b"".join(ord(c).to_bytes(3, "big") for c in s)
 
 
+def char_class(c: str) -> int:
+    """bits: 1 = C.1.2, 2 = B.1, 4 = prohibited output of RFC 4013 2.3 or unassigned (A.1), 8 = D.1, 16 = D.2"""
+    import stringprep as sp
+    proh = (sp.in_table_c12, sp.in_table_c21_c22, sp.in_table_c3, sp.in_table_c4, sp.in_table_c5, sp.in_table_c6,
+            sp.in_table_c7, sp.in_table_c8, sp.in_table_c9, sp.in_table_a1)
+    return (1 if sp.in_table_c12(c) else 0) | (2 if sp.in_table_b1(c) else 0) | \
+        (4 if any(t(c) for t in proh) else 0) | (8 if sp.in_table_d1(c) else 0) | (16 if sp.in_table_d2(c) else 0)
+
+
 def log_saslprep(pw: str) -> None:
-    try:
-        out = cps_be(R.saslprep_ref(pw))
-    except ValueError:
-        out = b"\xff"
-    R.PRIM_LOG[("saslprep", cps_be(pw), b"", b"")] = out
+    """Table values the SASLprep model needs for `pw`: character classes of every code point before and
+    after normalisation, and the NFKC image of the mapped string (Unicode 3.2, as RFC 3454 demands)."""
+    import stringprep as sp
+    import unicodedata
+    mapped = "".join(" " if sp.in_table_c12(c) else c for c in pw if not sp.in_table_b1(c))
+    norm = unicodedata.ucd_3_2_0.normalize("NFKC", mapped)
+    for c in set(pw) | set(norm) | {" "}:
+        R.PRIM_LOG[("cls", ord(c).to_bytes(3, "big"), b"", b"")] = bytes([char_class(c)])
+    if mapped:
+        R.PRIM_LOG[("nfkc", cps_be(mapped), b"", b"")] = cps_be(norm)
 
 
 def walk_strings(v: Any):
@@ -130,6 +144,41 @@ def check(ctx: C.Ctx, cases, with_rc4: bool = True) -> None:
                 ctx.fail(C.Failure("Arcfour is not an involution / differs from the reference RC4",
                                    {"key": key.hex(), "data": data.hex()}, data.hex(), enc.hex(), {"kind": "rc4"}))
 
+    # ---- SASLprep as a function: model (control flow over table values) vs _saslprep.saslprep
+    if with_rc4:
+        from pdfminer._saslprep import saslprep
+        pool = ["a", "Z", "1", " ", "\u00ad", "\u200b", "\u00a0", "\u2003", "\u0627", "\u05d0", "\u0628", "\u00e9",
+                "e\u0301", "\ufb01", "\u2168", "\u212b", "\x07", "\x7f", "\ue000", "\u0378", "\ufffe", "\U000e0001",
+                "\u4e2d", "\U0001f511", "\u0660", "\u200f", "\u2028", "\u0340", "\u1680"]
+        R.PRIM_LOG = {}
+        cases_s = []
+        for i in range(ctx.n(250, 4000)):
+            w = "".join(rng.choice(pool) for _ in range(rng.choice([1, 1, 2, 3, 5, 9])))
+            if i % 7 == 0:
+                w = rng.choice(["\u0627", "\u05d0"]) + w + rng.choice(["\u0628", "\u05d1", "a"])
+            log_saslprep(w)
+            cases_s.append(w)
+        table = dict(R.PRIM_LOG)
+        R.PRIM_LOG = None
+        add("primreset", None, None)
+        for (kind, a, b, c), out in table.items():
+            add("prim %s %s %s %s %s" % (kind, hx(a), hx(b), hx(c), hx(out)), None, None)
+        for w in cases_s:
+            try:
+                r = saslprep(w)
+                out = "S " + (",".join(str(ord(c)) for c in r) or "-")
+            except Exception as e:  # noqa: BLE001
+                out = "N" if type(e).__name__ == "PDFValueError" else "EXC:" + type(e).__name__
+            try:
+                ref = "S " + (",".join(str(ord(c)) for c in R.saslprep_ref(w)) or "-")
+            except ValueError:
+                ref = "N"
+            ctx.case(("saslprep", w), True, branch="saslprep:" + out[0])
+            if out != ref:
+                ctx.fail(C.Failure("_saslprep.saslprep differs from RFC 4013 (reference implementation)",
+                                   {"password": [ord(c) for c in w]}, ref, out, {"kind": "saslprep-function"}))
+            add("saslprep " + ",".join(str(ord(c)) for c in w), out, ("saslprep", {"password": [ord(c) for c in w]}))
+
     # ---- documents
     for ci, case in enumerate(cases):
         cfg = case.cfg
@@ -222,6 +271,35 @@ def check(ctx: C.Ctx, cases, with_rc4: bool = True) -> None:
                 add("getobj %s %d %d %s" % (loc, n, g, " ".join(toks)), got,
                     ("getobj", dict(base, objid=n, password=[ord(c) for c in pw])),
                     (lambda t, fl=flate: " ".join(post_model_stream(t.split(" "), fl))))
+            # cipher-call trace: model's instrumented traversal == the calls pdfminer really makes
+            calls: List[Tuple[int, str]] = []
+            try:
+                doc2 = c10.open_impl(wr.data, pw, caching=False)
+                orig = doc2.decipher
+
+                def spy(objid, genno, data, attrs=None, _orig=orig):
+                    if attrs is None:
+                        calls.append((objid, "s:" + hx(data)))
+                    else:
+                        t = attrs.get("Type")
+                        meta = t is not None and getattr(t, "name", None) == "Metadata"
+                        calls.append((objid, ("m:" if meta else "p:") + hx(data)))
+                    return _orig(objid, genno, data, attrs)
+                doc2.decipher = spy
+            except Exception:  # noqa: BLE001
+                doc2 = None
+            if doc2 is not None:
+                for n, (g, loc, v) in sorted(wr.stored.items()):
+                    del calls[:]
+                    try:
+                        o = doc2.getobj(n)
+                        if hasattr(o, "get_data"):
+                            o.get_data()
+                        got = " ".join(sorted(c for (oid, c) in calls if oid == n)) or "-"
+                    except Exception as e:  # noqa: BLE001
+                        got = "EXC:" + type(e).__name__
+                    add("trace %s %d %d %s" % (loc, n, g, " ".join(c10.canon_ref(v))), got,
+                        ("trace", dict(base, objid=n)), (lambda t: " ".join(sorted(t.split(" ")))))
             if wr.enc_id is not None:
                 try:
                     got = " ".join(c10.canon_impl(doc.getobj(wr.enc_id)))
